@@ -37,6 +37,16 @@ class SimStorageError(OSError):
     pass
 
 
+class SimRuntime(RuntimeError):
+    """Application errors often derive from RuntimeError -- which asyncio also uses for its own
+    'loop is already running' conditions."""
+
+
+class SimAttr(AttributeError):
+    """An AttributeError raised from inside a callback or property body (e.g. ``self.customer.vip``
+    with ``customer`` set to None): an ordinary failure, not 'the attribute does not exist'."""
+
+
 class SimBaseFault(BaseException):
     """A failure that is not an ``Exception`` (like CancelledError / KeyboardInterrupt raised inside a
     callback on its own, or an application-defined BaseException)."""
@@ -48,6 +58,8 @@ EXC_CLASSES = {
     "SimLookup": SimLookup,
     "SimValue": SimValue,
     "SimStorageError": SimStorageError,
+    "SimRuntime": SimRuntime,
+    "SimAttr": SimAttr,
 }
 
 
